@@ -52,6 +52,8 @@ type propSpec struct {
 	rule   string
 	// traceFix adapts a generated case to what the correspondence check can trace (nil: unchanged)
 	traceFix func(c Case) Case
+	// corpus: fixed structured cases evaluated before the random ones (nil: none)
+	corpus func() []Case
 }
 
 func nontrivial(c Case) bool { return len(c.Edges) >= 2 }
@@ -99,7 +101,7 @@ func specs() map[string]propSpec {
 	if v := os.Getenv("VH_MAXN"); v != "" {
 		fmt.Sscan(v, &o.MaxN)
 	}
-	m["C01"] = propSpec{opts: o, gen: baseGen(o), oracle: layoutThen(oracleC01), rule: "random multigraphs up to 14 nodes per part (cycles, parallel and antiparallel edges, self-loops, several components) x every production algorithm (splines apart) x size options; watchdog: 20 s and 4 GiB per call"}
+	m["C01"] = propSpec{opts: o, gen: baseGen(o), corpus: scaleCorpus, oracle: layoutThen(oracleC01), rule: "random multigraphs up to 14 nodes per part (cycles, parallel and antiparallel edges, self-loops, several components) x every production algorithm (splines apart) x size options; watchdog: 20 s and 4 GiB per call"}
 
 	o = full
 	o.P4 = []string{"sink", "valign", "packright", "bk", "bk0", "bk1", "bk2", "bk3"}
@@ -192,7 +194,7 @@ func specs() map[string]propSpec {
 		return nil
 	}, rule: "random simple graphs x both layerers x size-aware positioners x polyline; crossings of the drawing from node and bend x"}
 
-	o = GenOpts{MaxN: 10, Kinds: []string{"outtree", "intree"}, P1: allP1, P2: []string{"ns"}, P4: sizeAwareP4, P5: []string{"polyline"},
+	o = GenOpts{MaxN: 10, Kinds: []string{"outtree", "intree", "outtree", "intree", "talltree", "tallintree"}, P1: allP1, P2: []string{"ns"}, P4: sizeAwareP4, P5: []string{"polyline"},
 		SizeModes: allSizeModes, VirtualOut: []bool{false}, SpacingsPos: true}
 	m["C13"] = propSpec{opts: o, gen: baseGen(o), oracle: layoutThen(func(c Case, out graph.Layout) []string {
 		drawn, ok := drawnCrossings(c, out)
@@ -253,9 +255,18 @@ func runProbe(prop string, seed uint64, n int, outPath string, maxViol int) int 
 	r := NewRng(seed)
 	res := Result{Property: prop, Seed: seed, Rule: sp.rule, Dist: map[string]int{}}
 	seen := map[string]bool{}
-	for i := 0; i < n; i++ {
-		c := sp.gen(r)
-		c.Name = fmt.Sprintf("%s-s%d-%d", prop, seed, i)
+	var fixed []Case
+	if sp.corpus != nil {
+		fixed = sp.corpus()
+	}
+	for i := 0; i < n+len(fixed); i++ {
+		var c Case
+		if i < len(fixed) {
+			c = fixed[i]
+		} else {
+			c = sp.gen(r)
+			c.Name = fmt.Sprintf("%s-s%d-%d", prop, seed, i-len(fixed))
+		}
 		res.Evaluations++
 		k := c.Key()
 		if !seen[k] && nontrivial(c) {
